@@ -446,7 +446,7 @@ example : ∃ t', trun ({ fs := exFs, centre := none } : TSt ℤ) [.orthogonaliz
     t'.centre = some 1 := ⟨_, rfl, rfl⟩
 
 /-- a kept eigenvector block that is an isometry: 2 columns of the 2×2 swap for the `(2,2,1)` factor -/
-example : SplitIso ({ k := 2, qk := fun x _ j => if x + j = 1 then 1 else 0 } : Split ℤ) exB := by
+example : SplitIso ({ k := 2, qk := fun x _ j => if x + j = 1 then (1 : ℤ) else 0 } : Split ℤ) exB := by
   intro j hj j' hj'
   simp only [exB, Finset.sum_range_succ, Finset.sum_range_zero]
   simp only at hj hj'
@@ -455,6 +455,55 @@ example : SplitIso ({ k := 2, qk := fun x _ j => if x + j = 1 then 1 else 0 } : 
 /-- `truncate()` runs on the example (QR of site 0, then one split with both columns kept) -/
 example : ∃ t', trunc ({ fs := exFs, centre := none } : TSt ℤ) ⟨[exQ], []⟩
     [{ k := 2, qk := fun x _ j => if x + j = 1 then 1 else 0 }] = some t' ∧ t'.centre = some 0 := ⟨_, rfl, rfl⟩
+
+def exG : Split ℤ := { k := 2, qk := fun x _ j => if x + j = 1 then 1 else 0 }
+
+/-- the contracts of the one-step history `[truncate]` from `exFs` (QR of site 0, then the split of site 1) -/
+example : HistIso ({ fs := exFs, centre := none } : TSt ℤ) [.truncate ⟨[exQ], []⟩ [exG]] := by
+  refine ⟨⟨⟨?_, fun fs1 _ => trivial⟩, ?_⟩, fun _ _ => trivial⟩
+  · intro A B hA hB
+    simp [exFs] at hA hB
+    subst hA
+    refine ⟨?_, trivial⟩
+    intro k hk k' hk'
+    simp only [exQ] at hk hk'
+    simp only [exQ, Finset.sum_range_succ, Finset.sum_range_zero]
+    interval_cases k <;> interval_cases k' <;> simp
+  · intro t1 h1
+    have e : t1 = { fs := setPair exFs 0 (lrStep exQ exA exB), centre := some 1 } := by
+      have : orth ({ fs := exFs, centre := none } : TSt ℤ) 1 ⟨[exQ], []⟩
+          = some { fs := setPair exFs 0 (lrStep exQ exA exB), centre := some 1 } := rfl
+      have h1' : orth ({ fs := exFs, centre := none } : TSt ℤ) 1 ⟨[exQ], []⟩ = some t1 := h1
+      rw [this] at h1'
+      exact (Option.some.inj h1').symm
+    subst e
+    intro A B hA hB
+    have hB' : B = (lrStep exQ exA exB).2 := by
+      have : (setPair exFs 0 (lrStep exQ exA exB))[1]? = some (lrStep exQ exA exB).2 := rfl
+      have hB2 : (setPair exFs 0 (lrStep exQ exA exB))[1]? = some B := hB
+      rw [this] at hB2
+      exact (Option.some.inj hB2).symm
+    subst hB'
+    refine ⟨?_, trivial⟩
+    intro j hj j' hj'
+    simp only [exG] at hj hj'
+    simp only [exG, lrStep, exB, Tensor.Site.make_d, Tensor.Site.make_dr, Finset.sum_range_succ, Finset.sum_range_zero]
+    interval_cases j <;> interval_cases j' <;> simp
+
+/-- the flattened eigh contract is satisfiable (`G = diag(1, 2)`, `Q = 1₂` for a `(·, 2, 1)` factor), the cutoff model
+keeps both columns at `ε = 1/2`, cap 8, and the kept ranks are what `sweepBonds` says -/
+example : CutoffMatrix.EighContract (Matrix.diagonal ![(1 : ℚ), 2]) ![1, 2]
+    (flatQ 2 1 (fun x _ col => if x = col then (1 : ℚ) else 0)) := by
+  have hq : flatQ 2 1 (fun x _ col => if x = col then (1 : ℚ) else 0) = 1 := by
+    ext i j
+    fin_cases i <;> fin_cases j <;> simp [flatQ]
+  rw [hq]
+  exact ⟨by simp, by simp⟩
+
+example : (splitOf (α := ℚ) (1 / 2 : ℚ) 8 [1, 2] (fun x _ col => if x = col then 1 else 0)).map (·.k) = some 2 := by
+  decide +kernel
+
+example : Cutoff.sweepBonds (1 / 2 : ℚ) 8 [[1, 2]] = some ([exG].map (·.k)) := by decide +kernel
 
 /-- the `|00⟩` product state of `MPS.make(2)` is described by the flag state `make 2` -/
 example : Sem (make 2) ({ fs := List.replicate 2 (basisSite (α := ℤ) 2 0), centre := some 0 } : TSt ℤ) :=
